@@ -1749,6 +1749,17 @@ class Canon:
         self._keepalive: list = []
         norm.FINAL_ATTRS.clear()
         norm.FINAL_ATTRS.update(self._final_attrs())
+        from . import paths as _paths
+        fields: dict = {}
+        for m_ in prog.modules.values():
+            for c in m_.classes.values():
+                plain = c.is_dataclass and c.find_method("__init__")[1] is None and c.find_method("__post_init__")[1] is None \
+                    and not any(n_ in k_.methods for k_ in c.mro for n_ in ("__getattr__", "__getattribute__", "__new__"))
+                names = [f.name for f in c.all_fields() if f.init] if plain else []
+                other = {n_ for k_ in c.mro for n_ in list(k_.methods) + list(k_.class_assigns)} | ({"*"} if not plain else set())
+                fields.setdefault(c.name, []).append((names, other - set(names)))
+        _paths.CTOR_FIELDS.clear()
+        _paths.CTOR_FIELDS.update({k: v for k, v in fields.items() if not any("*" in o for _, o in v)})
 
     def _project_nested(self, stmts, module):
         """_project_helper_objects in every block"""
@@ -2102,6 +2113,56 @@ class Canon:
                     flat.append(s_)
             return flat
         return block(stmts)
+
+    def expand_replace(self, stmts, module):
+        """dataclasses.replace(K(a, b), f=v) is K(a, b) with field f given as v;  replace(x, f=v, g=w) on an object of the only dataclass
+        that has fields f and g (no subclasses) is K(<the other fields read from x>, f=v, g=w) when x is then evaluated once"""
+        if not any(isinstance(n, ast.Call) and u(n.func) in ("replace", "dataclasses.replace") for s_ in stmts for n in ast.walk(s_)):
+            return stmts
+        prog = self.prog
+        dcs = [c for m_ in prog.modules.values() for c in m_.classes.values() if c.is_dataclass and c.find_method("__init__")[1] is None
+               and c.find_method("__post_init__")[1] is None]
+
+        def spelled(c):
+            # the class as this module names it
+            if c.name in module.classes and module.classes[c.name] is c:
+                return ast.Name(id=c.name, ctx=ast.Load())
+            for alias, dotted in module.imports.items():
+                if dotted == c.qualname:
+                    return ast.Name(id=alias, ctx=ast.Load())
+            return None
+
+        class R(ast.NodeTransformer):
+            def visit_Call(self, node):
+                self.generic_visit(node)
+                if u(node.func) not in ("replace", "dataclasses.replace") or len(node.args) != 1 or any(k.arg is None for k in node.keywords) or not node.keywords:
+                    return node
+                x = node.args[0]
+                over = {k.arg: k.value for k in node.keywords}
+                if isinstance(x, ast.Call) and isinstance(x.func, (ast.Name, ast.Attribute)):
+                    c = module.resolve(x.func)
+                    if isinstance(c, Class) and c in dcs and not any(isinstance(a, ast.Starred) for a in x.args) and not any(k.arg is None for k in x.keywords):
+                        names = [f.name for f in c.all_fields() if f.init]
+                        if len(x.args) <= len(names) and set(over) <= set(names):
+                            given = dict(zip(names, x.args))
+                            given.update({k.arg: k.value for k in x.keywords})
+                            if all(norm.is_pure(given[f_], _PURE_EXT) for f_ in over if f_ in given):
+                                given.update(over)
+                                return ast.copy_location(ast.Call(func=x.func, args=[], keywords=[ast.keyword(arg=f_, value=given[f_]) for f_ in names if f_ in given]), node)
+                    return node
+                cands = [c for c in dcs if set(over) <= {f.name for f in c.all_fields() if f.init}]
+                if len(cands) == 1 and not prog.subclasses(cands[0]) and spelled(cands[0]) is not None:
+                    c = cands[0]
+                    names = [f.name for f in c.all_fields() if f.init]
+                    rest = [f_ for f_ in names if f_ not in over]
+                    if len(rest) <= 1 or norm.is_reference(x):
+                        kws = [ast.keyword(arg=f_, value=over[f_] if f_ in over else ast.Attribute(value=copy.deepcopy(x), attr=f_, ctx=ast.Load())) for f_ in names]
+                        # (the object is read before the new values are computed, as replace() does)
+                        if rest and not norm.is_reference(x) and names.index(rest[0]) != 0 and not all(norm.is_pure(v, _PURE_EXT) for v in over.values()):
+                            return node
+                        return ast.copy_location(ast.Call(func=spelled(c), args=[], keywords=kws), node)
+                return node
+        return [ast.fix_missing_locations(R().visit(s_)) for s_ in stmts]
 
     def fold_enum_tests(self, stmts, module):
         """E.A == E.B between two members of one Enum class of the program (distinct literal values) is a constant; an `if` /
@@ -2575,6 +2636,7 @@ class Canon:
         b = norm.map_pushdown(norm.extend_to_augassign(b), pure_calls=_PURE_EXT)
         b = norm.split_parallel_assign(norm.merge_display_building(b))
         b = norm.default_then_override(b)
+        b = self.expand_replace(b, module)
         b = norm.fold_none_tests(b)             # `if count is not None` on a count a helper just computed
         b = self.thread_sentinels(b, module)
         b = self.fold_enum_tests(b, module)
